@@ -1,6 +1,7 @@
 package props
 
 import (
+	"bytes"
 	"fmt"
 	"sync"
 	"testing"
@@ -119,6 +120,23 @@ func c15Judge(r *Run, h *lcHist) {
 			}
 		}
 	}
+	// (e) one refund / claim: once a committed record names the node's own spending transaction, the node hands no
+	// further spend of the swap output to the chain (a restart must not repeat it)
+	var knownSeq int64
+	for i, wr := range h.writes {
+		if wr.Err == "" && i < len(h.writeSeq) && bytes.Contains(wr.Bytes, []byte(`"claim_tx_id":"`)) && !bytes.Contains(wr.Bytes, []byte(`"claim_tx_id":""`)) {
+			knownSeq = h.writeSeq[i]
+			break
+		}
+	}
+	if knownSeq != 0 {
+		for i, s := range h.spendTrySeq {
+			if s > knownSeq {
+				r.Violate("one-refund", fmt.Sprintf("C15|spend-repeated-after-it-was-recorded|%s|%s", tag, h.spendTry[i].Op), det(fmt.Sprintf("the record already named the node's spending transaction, yet another %s spend (%s, chain answer %q) was handed to the chain", h.spendTry[i].Op, h.spendTry[i].TxID, h.spendTry[i].Err)), traceOf(h.p.w))
+				break
+			}
+		}
+	}
 	// (d) re-sent requests / agreements carry the same parameters
 	first := map[int][]byte{}
 	for _, m := range h.sends {
@@ -147,7 +165,66 @@ func TestC15(t *testing.T) {
 	defer r.Finish()
 	r.Rule = "crash-point enumeration: honest two-node swaps (4 roles × 2 chains); the victim is killed at every boundary crossing (store write or service call) before and after the effect, restarted through Start+RecoverSwaps, and the peer continues; offline oracle over the history: <=1 funding tx, <=1 settled payment per hash, no pay crossing after a committed SwapCanceled or after the node sent cancel, re-sent request/agreement byte-identical. Extra continuation: the peer's agreement is held back until the initiator's negotiation timer fired and its cancel left, the initiator is killed at the five crossings around that cancel, restarted, then the agreement arrives. distinct = (chain, role, crash op, flavour, final state)"
 	r.Assumptions = []string{"a second completion of the same invoice is ultimately prevented by the Lightning node's own de-duplication, which the ledger models (CLN-like personality)", "process crashes only (bbolt NoSync): everything written before the kill is on disk"}
-	pts := lcSweep(r, []string{"btc", "lbtc"}, "happy", false, nil, func(h *lcHist) { c15Judge(r, h) })
+	// in every second crash history the peer repeats its last message when the node is back
+	redeliverOdd := func(h *lcHist) { h.redeliver = h.c.crashAt%2 == 1 }
+	pts := lcSweep(r, []string{"btc", "lbtc"}, "happy", false, redeliverOdd, func(h *lcHist) { c15Judge(r, h) })
+	// maker histories that run into the refund: crash at every crossing, optionally with the peer dying right after,
+	// then the drain (blocks past the CSV, restarts): the refund path with all its restarts
+	pts += lcSweepRoles(r, []string{"btc", "lbtc"}, true, func(h *lcHist) { c15Judge(r, h) })
+	// ... and crashes inside the refund itself: the peer dies right after the maker's announcement, the drain takes
+	// the maker through CSV maturity and its refund, and the maker is killed at every crossing of that phase
+	{
+		type mk struct{ chain, typ, victim string }
+		var inRefund []lcCase
+		var mu sync.Mutex
+		var mks []mk
+		for _, ch := range []string{"btc", "lbtc"} {
+			mks = append(mks, mk{ch, "in", "alice"}, mk{ch, "out", "bob"})
+		}
+		record := func(h *lcHist) { h.victim.RecordCrossings = true }
+		parallelDo(len(mks), 4, func(i int) {
+			m := mks[i]
+			c := lcCase{chain: m.chain, typ: m.typ, victim: m.victim, variant: "happy", drain: true}
+			base := lcRun(r.Seed*977+int64(i)+700_000, c, nil)
+			cut := int64(-1)
+			for k, op := range base.ops {
+				if op == fmt.Sprintf("msg.send:%d", ref.MsgOpeningTxBroadcast) {
+					cut = int64(k + 2)
+					break
+				}
+			}
+			base.p.w.Close()
+			if cut < 0 {
+				return
+			}
+			c.cutAt = cut
+			full := lcRun(r.Seed*977+int64(i)+700_000, c, record)
+			r.Eval()
+			c15Judge(r, full)
+			ops := append([]string(nil), full.victim.CrossOps...)
+			full.p.w.Close()
+			mu.Lock()
+			for k := cut; k < int64(len(ops)); k++ {
+				for _, fl := range []string{"before", "after"} {
+					cc := c
+					cc.crashAt, cc.flavor, cc.name = k+1, fl, ops[k]+"+in-refund"
+					inRefund = append(inRefund, cc)
+				}
+			}
+			mu.Unlock()
+		})
+		parallelDo(len(inRefund), 12, func(i int) {
+			c := inRefund[i]
+			h := lcRun(r.Seed*977+int64(i)+800_000, c, nil)
+			h.c.name = c.name
+			r.Eval()
+			r.CountIn("crash_points_by_op", c.name)
+			c15Judge(r, h)
+			h.p.w.Close()
+		})
+		pts += len(inRefund)
+		r.Extra["crash_points_inside_refund"] = len(inRefund)
+	}
 	if r.Thorough() {
 		// the same enumeration over other worlds (amounts, keys, funding layouts), and over the histories in which the
 		// claim payment fails (cooperative close path) or the claim broadcast fails 30 times
